@@ -196,7 +196,7 @@ func ruleA15a(r *Run, p *Prog, rule, rel, tname string) {
 											if cc := callCommon(r4); cc != nil && cc.IsInvoke() && cc.Value == ssa.Value(ex) {
 												heldC := li.heldAt(m, r4)
 												n++
-												r.Ob(rule, FnName(m)+"/"+fv.Name()+"."+cc.Method.Name(), p.Pos(r4.Pos()), heldC, true, tern(heldC, "call on the wrapped "+fv.Name()+" made with "+mu.Name()+" held", "the wrapped "+fv.Name()+" is called after "+mu.Name()+" was released: two goroutines can be inside it at once"))
+												r.Ob(rule, FnName(m)+"/"+fname(fv)+"."+cc.Method.Name(), p.Pos(r4.Pos()), heldC, true, tern(heldC, "call on the wrapped "+fname(fv)+" made with "+mu.Name()+" held", "the wrapped "+fname(fv)+" is called after "+mu.Name()+" was released: two goroutines can be inside it at once"))
 											}
 										}
 									}
@@ -205,7 +205,7 @@ func ruleA15a(r *Run, p *Prog, rule, rel, tname string) {
 							if use != nil {
 								heldC := li.heldAt(m, use)
 								n++
-								r.Ob(rule, FnName(m)+"/"+fv.Name()+"."+callCommon(use).Method.Name(), p.Pos(use.Pos()), heldC, true, tern(heldC, "call on the wrapped "+fv.Name()+" made with "+mu.Name()+" held", "the wrapped "+fv.Name()+" is called after "+mu.Name()+" was released: two goroutines can be inside it at once"))
+								r.Ob(rule, FnName(m)+"/"+fname(fv)+"."+callCommon(use).Method.Name(), p.Pos(use.Pos()), heldC, true, tern(heldC, "call on the wrapped "+fname(fv)+" made with "+mu.Name()+" held", "the wrapped "+fname(fv)+" is called after "+mu.Name()+" was released: two goroutines can be inside it at once"))
 							}
 						}
 					}
@@ -213,7 +213,7 @@ func ruleA15a(r *Run, p *Prog, rule, rel, tname string) {
 			}
 			n++
 			held := li.heldAt(m, fa)
-			r.Ob(rule, FnName(m)+"/"+fv.Name(), p.Pos(fa.Pos()), held, true, tern(held, "field "+fv.Name()+" accessed with "+mu.Name()+" held", "field "+fv.Name()+" of "+tname+" is accessed without holding "+mu.Name()+" (concurrent calls interleave on it)"))
+			r.Ob(rule, FnName(m)+"/"+fname(fv), p.Pos(fa.Pos()), held, true, tern(held, "field "+fname(fv)+" accessed with "+mu.Name()+" held", "field "+fname(fv)+" of "+tname+" is accessed without holding "+mu.Name()+" (concurrent calls interleave on it)"))
 		})
 	}
 	if n == 0 {
